@@ -53,7 +53,9 @@ def cases_c10(tier, seed):
                                     continue  # already in the main grid
                                 if quick and param is not None and lacks is not None and (T > 5 or b):
                                     continue
-                                if param is not None and T > (7 if quick else 9):
+                                if param is not None and T > (6 if quick else 9):
+                                    continue
+                                if quick and param is not None and T > 4 and pr != [2]:
                                     continue
                                 if not quick and param is not None and lacks is not None and T > 6:
                                     continue
@@ -207,7 +209,7 @@ def cases_c08(tier, seed):
     for k in range(1, kmax_exh + 1):
         for pat in itertools.combinations_with_replacement(_subsets(V3), k):
             flat.append((V3, pat))
-    big = [(4, 16), (5, 16)] if quick else [(4, 40), (5, 40), (6, 30), (7, 20), (8, 20)]
+    big = [(4, 10), (5, 10)] if quick else [(4, 40), (5, 40), (6, 30), (7, 20), (8, 20)]
     for k, n in big:
         for _ in range(n):
             pat = tuple(tuple(v for v in V4 if rs.rand() < 0.45) for _ in range(k))
@@ -246,7 +248,7 @@ def cases_c08(tier, seed):
     for tname, (nl, nr, fn) in TEMPLATES.items():
         V = V2 if quick else V3
         combos = list(itertools.product(itertools.product(_subsets(V), repeat=nl), itertools.product(_subsets(V), repeat=nr)))
-        cap = 140 if quick else 350
+        cap = 100 if quick else 350
         if len(combos) > cap:
             idx = sorted(rs.choice(len(combos), size=cap, replace=False))
             combos = [combos[i] for i in idx]
@@ -323,9 +325,9 @@ def cases_c08(tier, seed):
         semirings=srs,
         flat="every multiset of operand variable-sets with <= %d operands over 3 variables x every reduced subset of the 3 variables (incl. variables no operand mentions); plus %s seeded patterns (operands, count) over 4 variables x all 16 reduced subsets" % (kmax_exh, big),
         sizes="each variable 1-3 (seeded, P(1)=0.2)",
-        routes=["eager", "reflect/lazy/normalize-built then eager reinterpret", "lazy/reflect/normalize-built then apply_optimizer", "lazy/reflect-built, reinterpret under unfold, then eager", "normalize idempotence (is)", "einsum / naive_einsum / naive_plated_einsum (flat, 3 backends)"],
+        routes=["eager", "lazy/normalize-built then eager reinterpret", "lazy/normalize-built then apply_optimizer", "lazy-built, reinterpret under unfold, then eager", "normalize idempotence (is)", "einsum / naive_einsum / naive_plated_einsum (flat, 3 backends)"] + ([] if quick else ["the reflect-built variant of each route"]),
         nested_templates={k: v[0] for k, v in TEMPLATES.items()},
-        nested_universe="2 variables, capped 140 patterns/template" if quick else "3 variables, capped 350 patterns/template",
+        nested_universe="2 variables, capped 100 patterns/template" if quick else "3 variables, capped 350 patterns/template",
         random_trees=200 if quick else 1500,
         parameter_operand="one operand is tensor (x) w / tensor (other op) w / the bare Variable w; evaluated at w in {0.7, 1.9}",
         einsum_equations="<= %d operands x %d symbols, every multiset of operand symbol-sets (every tuple for <= 2 operands) x every output subset (4 operands over 4 symbols: empty, full and 6 seeded subsets); symbol order seeded; backends numpy, numpy_log, numpy_map" % (kmax, len(syms)),
@@ -333,6 +335,10 @@ def cases_c08(tier, seed):
         nontrivial_rule="expr: >= 2 operands and some mentioned variable of size >= 2; einsum: some symbol of size >= 2",
         exhaustive_subspaces="flat incidence patterns over 3 variables x reduced subsets, and einsum operand-set patterns x output subsets, are complete up to symbol order; sizes and data are seeded; 4-variable patterns, capped templates, parameter variants and random trees are seeded samples",
     )
+    if quick:
+        for c in cases:
+            if c["kind"] == "expr":
+                c["light"] = True
     return _seeded(cases, seed), bounds, False
 
 
@@ -639,7 +645,7 @@ def cases_c11(tier, seed):
         sizes="1-3 per variable (seeded)",
         modes=["reflect-built", "lazy-built", "reflect-built + apply_optimizer"],
         transforms="seeded: renaming of 1-2 inputs, strided Slice (start 0-1, step 1-2), injective index tensor, Cat of two leaves (or of one leaf twice); repeated use of one leaf",
-        adjoint_convention="adjoint(leaf) has inputs among leaf inputs + root inputs; a name shared by both denotes the diagonal; compared with the one-hot-probe derivative",
+        adjoint_convention="adjoint(leaf) has inputs among leaf inputs + root inputs; a name shared by both denotes the diagonal; compared with the one-hot-probe derivative; when the root keeps free inputs the per-output derivative summed over any subset of the root inputs the leaf does not mention is accepted",
         leaf_identity="a leaf is checked only if it is still a factor of the term handed to the tape (lazy / optimizer evaluate substitutions of tensors eagerly; then counted as declined 'leaf-not-in-term')",
         counts=ncount,
         nontrivial_rule=">= 2 occurrences and some leaf axis of size >= 2",
